@@ -591,7 +591,7 @@ func shrinkEnv(p any, env func(any) *Env, clone func() any) []any {
 			out = append(out, q)
 		}
 	}
-	if e.Sched.Policy != simrt.PolicyRandom || e.Sched.PYield != 0 || e.Sched.HotMod != 0 {
+	if e.Sched.Policy != simrt.PolicyRandom || e.Sched.PYield != 0 || e.Sched.HotMod != 0 || e.Sched.SpawnLag != 0 {
 		try(func(e *Env) bool { e.Sched = SchedPlan{Policy: simrt.PolicyRandom, PYield: 0, SiteMask: ^uint64(0)}; return true })
 	}
 	if e.Net.LatencyMaxUs != 0 || e.Net.SegMax != 0 || e.Net.ReadMax != 0 || e.Net.ShortRead != 0 || e.Net.DialLatUs != 0 {
